@@ -1,12 +1,12 @@
 (* Props/C06_src_state.v -- SRCA: source tie for C06 (pickling): the Gallina definitions that harness/gen/pysrc.py regenerates on
    every run from the CURRENT text of IPSet.__getstate__ / __setstate__ (netaddr/ip/sets.py, coq/Gen/pysrc_sets_state_gen.v) and
-   of IPNetwork.__getstate__ (netaddr/ip/__init__.py, coq/Gen/pysrc_sets_ip_gen.v) are equal to the hand-written model
+   of IPNetwork.__getstate__ (netaddr/ip/__init__.py, coq/Gen/pysrc_ctor_gen.v) are equal to the hand-written model
    Sets.set_getstate / set_setstate (command `pickle` of the C06 correspondence).  A tuple of ints returned by a method is the
    list [value; prefixlen; version] (state_list).  __setstate__ takes the (ignored) old state first.  No hypotheses.
    __reduce__ (which only packs class, arguments and __getstate__()) is not translated.
    Nothing but the statement closed by `exact`, followed by Print Assumptions. *)
 From NV Require Import Base.Tac Base.PyVal Model.Ip Model.Sets Model.SrcPrelude Model.SrcPreludeSets
-  Gen.pysrc_sets_ip_gen Gen.pysrc_sets_state_gen Proofs.GenOk_Src_C06_state.
+  Gen.pysrc_ctor_gen Gen.pysrc_sets_state_gen Proofs.GenOk_Src_C06_state.
 Import ListNotations.
 Open Scope Z_scope.
 
